@@ -431,4 +431,4 @@ SUBS = [
 
 # ---- the result evo_ape saves when plots are requested as well (plotting runs before saving) -------------------
 from vf.checks import c01 as _c01
-SUBS.append(Sub("cli_plot", _c01.sub_cli, _c01.st_cli(force_plot=True), 250, 8000, nontrivial=lambda c: True, shards_quick=4))
+SUBS.append(Sub("cli_plot", _c01.sub_cli_with_companions, _c01.st_cli(force_plot=True), 250, 8000, nontrivial=lambda c: True, shards_quick=4))
